@@ -29,6 +29,7 @@
 #include "vf_common.h"
 #include "a/a.h"
 #include "a/utf.h"
+#include "a/str.h"
 
 /* ------------------------------------------------------------------ plan */
 enum
@@ -402,6 +403,25 @@ static void judge_string(unsigned char const *p, size_t n, size_t *count_out, si
     if (lc0 != lc)
     {
         VIOL("length/null-stop-variant-differs", "a_utf_length(%s, %zu, ..) = %zu with stop, %zu with stop=NULL", hex(p, n), n, lc, lc0);
+    }
+    {
+        /* the string-level counter a_utf_len (str.c) over the same bytes viewed as a string object, with and without `stop` */
+        a_str view;
+        size_t st2 = (size_t)-1, sl, sl0;
+        view.ptr_ = (char *)(uintptr_t)p;
+        view.num_ = n;
+        view.mem_ = n;
+        sl = a_utf_len(&view, &st2);
+        sl0 = a_utf_len(&view, NULL);
+        ++acc.fold;
+        if (sl != count || st2 != pos)
+        {
+            VIOL("str_utf_len/differs-from-decode-fold", "a_utf_len over %s (len %zu) = %zu stop %zu, folding a_utf_decode gives %zu characters in %zu bytes", hex(p, n), n, sl, st2, count, pos);
+        }
+        if (sl0 != count)
+        {
+            VIOL("str_utf_len/null-stop-form-differs-from-decode-fold", "a_utf_len(str, NULL) over %s (len %zu) = %zu, folding a_utf_decode gives %zu characters", hex(p, n), n, sl0, count);
+        }
     }
     vf_distinct(string_cell(p, n));
     if (count_out) { *count_out = lc; }
